@@ -55,6 +55,23 @@ def gen_cases(rng, tier: str) -> list[dict]:
                 dv = common.names_of(d)
                 cases.append({"origin": f"order-{order}", "e": wire.expr(d, ids={}), "x": rng.choice(dv),
                               "route": rng.choice(["P", "FE"]), "points": c["points"]})
+    # rewrite rules the model does not know: derivatives whose simplification meets the shapes such a rule is about
+    # (t * shape differentiated in t leaves the shape to the simplifier)
+    from .. import instrument
+    for root, mentioned, ints in instrument.unknown_reducer_hints():
+        if root not in gen.ALL:
+            continue
+        for origin, e in gen.directed_shapes(rng, root, mentioned, ints, 3000):
+            e = gen.floatify(e)
+            if wire.size(e) > 80:
+                continue
+            t = X.Variable("t_")
+            vs = common.names_of(e)
+            which = rng.random()
+            full, x = (X.Multiply(t, e), "t_") if which < 0.6 or not vs else (e, rng.choice(vs))
+            pts = common.points_for(rng, full, 2)
+            cases.append({"origin": "focus:" + origin, "e": wire.expr(full, ids={}), "x": x, "route": rng.choice(["P", "FE"]),
+                          "points": [wire.point({k: float(v) for k, v in p.items()}) for p in pts]})
     return cases
 
 
